@@ -10,11 +10,8 @@ Implements the Poseidon hash function with 128-bit security and 4-1 reduction
 Currently supports the zkinterface and zkifbellman backends
 """
 
-# Load Poseidon parameters
-try:
-    backend = os.environ["PYSNARK_BACKEND"]
-except KeyError:
-    backend = "nobackend"
+# Load Poseidon parameters of the backend actually in use (it need not come from the environment)
+backend = runtime.backend_name
 
 if backend in poseidon_constants:
     constants = poseidon_constants[backend]
